@@ -3,6 +3,7 @@ package rpc
 import (
 	"encoding/json"
 	"fmt"
+	"os"
 	"path/filepath"
 	"strings"
 	"time"
@@ -16,15 +17,17 @@ const (
 )
 
 type burstCfg struct {
-	name    string
-	env     envCfg
-	conns   int
-	calls   int   // per connection
-	sizes   []int // request body sizes (cycled)
-	cap     int   // number of handlers that can be admitted at once (what the model says)
-	memSpec int   // MemLimit of the trace specification (bytes)
-	bufSpec int   // BufSize of the trace specification (bytes)
-	mcSlots int   // MemLimit of the MC_RpcCalls run that establishes the invariants (units)
+	name     string
+	env      envCfg
+	conns    int
+	calls    int   // per connection
+	sizes    []int // request body sizes (cycled)
+	cap      int   // number of handlers that can be admitted at once (what the model says)
+	memSpec  int   // MemLimit of the trace specification (bytes)
+	bufSpec  int   // BufSize of the trace specification (bytes)
+	mcSlots  int   // MemLimit of the MC_RpcCalls run that establishes the invariants (units)
+	bigFirst bool  // requests larger than RequestBufSize are issued (and admitted) first
+	holdMs   int   // probe: keep the handlers held this long after the pile-up
 }
 
 type burstResp struct {
@@ -53,7 +56,7 @@ func runBurst(c *core.Ctx, drvPath string, b burstCfg, seed int64, tag string) (
 	}
 	out := filepath.Join(c.Scratch, "burst-"+tag+".ndjson")
 	err = d.p.Call(map[string]any{"op": "burst", "env": env, "seed": seed, "out": out, "watchdogMs": 30000,
-		"burst": map[string]any{"conns": b.conns, "calls": b.calls, "sizes": b.sizes, "cap": b.cap}}, &resp)
+		"burst": map[string]any{"conns": b.conns, "calls": b.calls, "sizes": b.sizes, "cap": b.cap, "bigFirst": b.bigFirst, "holdMs": b.holdMs}}, &resp)
 	if err != nil {
 		return nil, resp, "", err
 	}
@@ -83,26 +86,41 @@ func runC39(c *core.Ctx) error {
 	const defLimit = 256 * miB // DefaultRequestMemoryLimit
 	const defBuf = 4096        // DefaultServerRequestBufSize
 	small := []int{100, 2000, 50000, 16, 300000}
+	// Requests that may have to wait for request memory stay small: their bodies are then already
+	// in the connection's read buffer when memory is granted, so that the deviation
+	// BodyReadDeadline (RpcCalls.tla) cannot hit them however slow the machine is.
+	tiny := []int{100, 2000, 8, 16, 4000}
 	n := c.Pick(5, 12)
 	bursts := []burstCfg{
 		{name: "workers-1", env: envCfg{Net: "tcp4", MaxWorkers: 1}, conns: 3, calls: n, sizes: small, cap: 1, memSpec: defLimit, bufSpec: defBuf, mcSlots: 3},
 		{name: "workers-2", env: envCfg{Net: "unix", Key: cryptoKey, MaxWorkers: 2}, conns: 3, calls: n, sizes: small, cap: 2, memSpec: defLimit, bufSpec: defBuf, mcSlots: 3},
 		{name: "workers-3", env: envCfg{Net: "tcp4", Key: cryptoKey, MaxWorkers: 3}, conns: 4, calls: n, sizes: small, cap: 3, memSpec: defLimit, bufSpec: defBuf, mcSlots: 3},
 		// request memory: the limit clamps to 16 MiB - 1; with RequestBufSize = 6 MiB every request takes 6 MiB: 2 slots for 8 workers
-		{name: "memory-6MiB-slots-2", env: envCfg{Net: "tcp4", MaxWorkers: 8, BufSize: 6 * miB, MemLimit: 1}, conns: 4, calls: c.Pick(3, 6), sizes: small, cap: 2,
+		{name: "memory-6MiB-slots-2", env: envCfg{Net: "tcp4", MaxWorkers: 8, BufSize: 6 * miB, MemLimit: 1}, conns: 4, calls: c.Pick(3, 6), sizes: tiny, cap: 2,
 			memSpec: maxPacketLen, bufSpec: 6 * miB, mcSlots: 2},
-		// RequestBufSize = 4 MiB: 3 slots (4 x 4 MiB would exceed 16 MiB - 1); one request in five is 5 MiB and takes its own length
-		{name: "memory-4MiB-mixed", env: envCfg{Net: "unix", MaxWorkers: 8, BufSize: 4 * miB, MemLimit: 1}, conns: 4, calls: c.Pick(3, 6), sizes: []int{100, 2000, 5 * miB, 16, 70000}, cap: 2,
-			memSpec: maxPacketLen, bufSpec: 4 * miB, mcSlots: 3},
+		// RequestBufSize = 4 MiB: 3 slots (4 x 4 MiB would exceed 16 MiB - 1); two requests of 5 MiB take their own
+		// length (they are issued first): 5 + 5 + 4 MiB fit, a fourth request must wait
+		{name: "memory-4MiB-mixed", env: envCfg{Net: "unix", MaxWorkers: 8, BufSize: 4 * miB, MemLimit: 1}, conns: 4, calls: 3,
+			sizes: []int{5 * miB, 100, 2000, 16, 4000, 8, 5 * miB, 300, 100, 2000, 16, 4000}, cap: 3,
+			memSpec: maxPacketLen, bufSpec: 4 * miB, mcSlots: 3, bigFirst: true},
 	}
 	if c.Thorough() {
 		bursts = append(bursts,
 			burstCfg{name: "workers-0-inline", env: envCfg{Net: "tcp4", MaxWorkers: 0}, conns: 3, calls: n, sizes: small, cap: 3, memSpec: defLimit, bufSpec: defBuf, mcSlots: 3},
-			burstCfg{name: "memory-20MiB-slots-3", env: envCfg{Net: "tcp4", Key: cryptoKey, MaxWorkers: 8, BufSize: 6 * miB, MemLimit: 20 * miB}, conns: 5, calls: 5, sizes: small, cap: 3,
+			burstCfg{name: "memory-20MiB-slots-3", env: envCfg{Net: "tcp4", Key: cryptoKey, MaxWorkers: 8, BufSize: 6 * miB, MemLimit: 20 * miB}, conns: 5, calls: 5, sizes: tiny, cap: 3,
 				memSpec: 20 * miB, bufSpec: 6 * miB, mcSlots: 3},
-			burstCfg{name: "workers-2-memory-slots-2", env: envCfg{Net: "unix", Key: cryptoKey, MaxWorkers: 2, BufSize: 7 * miB, MemLimit: 1}, conns: 4, calls: 5, sizes: small, cap: 2,
+			burstCfg{name: "workers-2-memory-slots-2", env: envCfg{Net: "unix", Key: cryptoKey, MaxWorkers: 2, BufSize: 7 * miB, MemLimit: 1}, conns: 4, calls: 5, sizes: tiny, cap: 2,
 				memSpec: maxPacketLen, bufSpec: 7 * miB, mcSlots: 2},
 		)
+	}
+
+	// Opt-in probe (VERIF_RPC_PROBE=bodydeadline) of the deviation BodyReadDeadline: two handlers are held
+	// for 12.5 s while a 300 KB request of a third connection waits for request memory.  "Excess load
+	// waits" requires it to be served afterwards; the code drops it together with its connection
+	// (reported to the lead as a discrepancy; not part of the default run because it needs a 12.5 s wall-clock wait).
+	if os.Getenv("VERIF_RPC_PROBE") == "bodydeadline" {
+		bursts = []burstCfg{{name: "memory-wait-exceeds-read-deadline", env: envCfg{Net: "tcp4", MaxWorkers: 8, BufSize: 6 * miB, MemLimit: 1}, conns: 3, calls: 1,
+			sizes: []int{100, 100, 300000}, cap: 2, memSpec: maxPacketLen, bufSpec: 6 * miB, mcSlots: 2, holdMs: 12500}}
 	}
 
 	// 1. TLC: the invariants WorkerBound / MemBound / WaitingNotDropped of RpcCalls for every
